@@ -277,20 +277,20 @@ func vhTrueLen(p *Path, n int) float64 {
 // control points; cuts at 10, 25, 50, 75, 90 and 95 % of Length().
 func VH_C09_companion_lengths() {
 	shapes := []string{
-		"M10 0A10 10 0 0 1 0 10",          // 0 quarter circle
+		"M10 0A10 10 0 0 1 0 10",           // 0 quarter circle
 		"M10 0A10 10 0 1 1 7.0711 -7.0711", // 1 315 degrees of a circle
-		"M6 0A6 3 0 0 1 0 3",              // 2 quarter of a 2:1 ellipse
-		"M0 0A6 3 0 1 1 12 0",             // 3 half of a 2:1 ellipse (radii fit exactly)
-		"M4 6A6 3 0 1 0 3 6",              // 4 nearly a whole 2:1 ellipse
-		"M0 0A6 1 0 0 1 6 1",              // 5 quarter of a 6:1 ellipse
-		"M4 6A6 1 0 1 0 3 6",              // 6 nearly a whole 6:1 ellipse
-		"M0 0A6 1 90 1 1 5 6",             // 7 rotated 6:1 ellipse, radii scaled up to fit
-		"M0 0A12 1 0 1 1 24 0",            // 8 half of a 12:1 ellipse
-		"M0 0Q5 5 10 0",                   // 9 symmetric quadratic
-		"M0 0Q5 20 6 0",                   // 10 tall narrow quadratic
-		"M0 0C0 10 20 10 20 0",            // 11 cubic of the upstream tests
-		"M0 0C0 10 1 10 1 0",              // 12 hairpin cubic
-		"M0 0C10 0 -4 1 6 1",              // 13 cubic with a near-cusp
+		"M6 0A6 3 0 0 1 0 3",               // 2 quarter of a 2:1 ellipse
+		"M0 0A6 3 0 1 1 12 0",              // 3 half of a 2:1 ellipse (radii fit exactly)
+		"M4 6A6 3 0 1 0 3 6",               // 4 nearly a whole 2:1 ellipse
+		"M0 0A6 1 0 0 1 6 1",               // 5 quarter of a 6:1 ellipse
+		"M4 6A6 1 0 1 0 3 6",               // 6 nearly a whole 6:1 ellipse
+		"M0 0A6 1 90 1 1 5 6",              // 7 rotated 6:1 ellipse, radii scaled up to fit
+		"M0 0A12 1 0 1 1 24 0",             // 8 half of a 12:1 ellipse
+		"M0 0Q5 5 10 0",                    // 9 symmetric quadratic
+		"M0 0Q5 20 6 0",                    // 10 tall narrow quadratic
+		"M0 0C0 10 20 10 20 0",             // 11 cubic of the upstream tests
+		"M0 0C0 10 1 10 1 0",               // 12 hairpin cubic
+		"M0 0C10 0 -4 1 6 1",               // 13 cubic with a near-cusp
 	}
 	k := vChoose(0, len(shapes)-1)
 	p := MustParseSVGPath(shapes[k])
@@ -374,13 +374,13 @@ func VH_C06_companion_elliptic_segment() {
 // round the tip, which the flattened offset does not (finding D82).
 func VH_C04_companion_curve_stroke() {
 	shapes := []string{
-		"M0 0C2 3 6 3 8 0",       // 0 gentle arch
-		"M0 0C4 4 4 -4 8 0",      // 1 S-curve with an inflection
-		"M0 0Q4 6 8 0",           // 2 quadratic
-		"M0 3A4 2 0 0 1 8 3",     // 3 half ellipse
-		"M0 0C7 1 8 7 6 2",       // 4 hairpin (near-cusp)
-		"M0 0L4 0C1 5 3 1 8 0",   // 5 line into a tight loop
-		"M0 0C3 0 5 1 5 4",       // 6 quarter turn
+		"M0 0C2 3 6 3 8 0",     // 0 gentle arch
+		"M0 0C4 4 4 -4 8 0",    // 1 S-curve with an inflection
+		"M0 0Q4 6 8 0",         // 2 quadratic
+		"M0 3A4 2 0 0 1 8 3",   // 3 half ellipse
+		"M0 0C7 1 8 7 6 2",     // 4 hairpin (near-cusp)
+		"M0 0L4 0C1 5 3 1 8 0", // 5 line into a tight loop
+		"M0 0C3 0 5 1 5 4",     // 6 quarter turn
 	}
 	k := vChoose(0, len(shapes)-1)
 	w := []float64{1, 2}[vChoose(0, 1)]
@@ -439,4 +439,101 @@ func VH_C04_companion_curve_stroke() {
 	vKnown("D82", k == 4 || k == 5)
 	vAssert("C04.companion.points_within_half_the_width_are_inside", missing == 0)
 	vAssert("C04.companion.points_beyond_half_the_width_are_outside", extra == 0)
+}
+
+// C06 companion: CCW() of simple closed contours whose bottom-right-most point is a cusp - the
+// arriving and the leaving segment have the same tangent line there and at least one of them is
+// curved, so that CCW must fall back on the curvature tie-break.  Base shapes (all clockwise or
+// all counter clockwise by construction) x mirror in y x reversal x rotation of the start point;
+// the oracle is the sign of the shoelace area of an independent dense sampling.  Seed C06-b.
+type vhCuspSeg struct {
+	pts       []Point // 2: line, 3: quadratic, 4: cubic control polygon; nil: circular arc
+	c         Point   // arc centre
+	r, a0, a1 float64 // arc radius and start/end angle (radians, |a1-a0| < pi)
+}
+
+func (s vhCuspSeg) at(t float64) Point {
+	if s.pts == nil {
+		a := s.a0 + (s.a1-s.a0)*t
+		return Point{s.c.X + s.r*math.Cos(a), s.c.Y + s.r*math.Sin(a)}
+	}
+	q := append([]Point{}, s.pts...)
+	for n := len(q) - 1; n > 0; n-- {
+		for i := 0; i < n; i++ {
+			q[i] = Point{q[i].X + (q[i+1].X-q[i].X)*t, q[i].Y + (q[i+1].Y-q[i].Y)*t}
+		}
+	}
+	return q[0]
+}
+
+func VH_C06_companion_ccw_cusp() {
+	P := func(x, y float64) Point { return Point{x, y} }
+	shapes := [][]vhCuspSeg{
+		// two quadratics meeting in a 180 degree cusp at (4,0), one above and one below the axis
+		{{pts: []Point{P(0, 1), P(2, 0), P(4, 0)}}, {pts: []Point{P(4, 0), P(2, 0), P(0, -1)}}, {pts: []Point{P(0, -1), P(0, 1)}}},
+		// quadratic arriving, straight line leaving along the tangent
+		{{pts: []Point{P(0, 1), P(2, 0), P(4, 0)}}, {pts: []Point{P(4, 0), P(0, 0)}}, {pts: []Point{P(0, 0), P(0, 1)}}},
+		// two quadratics on the same side of the tangent, different curvature
+		{{pts: []Point{P(0, 1), P(2, 0), P(4, 0)}}, {pts: []Point{P(4, 0), P(2, 0), P(0, 0.5)}}, {pts: []Point{P(0, 0.5), P(0, 1)}}},
+		// two cubics on the same side of the tangent
+		{{pts: []Point{P(0, 1), P(1, 0.2), P(3, 0), P(4, 0)}}, {pts: []Point{P(4, 0), P(2, 0), P(1, 0.1), P(0, 0.5)}}, {pts: []Point{P(0, 0.5), P(0, 1)}}},
+		// two internally tangent circles: vertical common tangent at (4,0)
+		{{c: P(3, 0), r: 1, a0: math.Pi, a1: 0}, {c: P(2, 0), r: 2, a0: 0, a1: math.Pi}, {pts: []Point{P(0, 0), P(2, 0)}}},
+	}
+	segs := shapes[vChoose(0, len(shapes)-1)]
+	mirror := vChoose(0, 1) == 1
+	reverse := vChoose(0, 1) == 1
+	rot := vChoose(0, 2)
+	if mirror {
+		ms := []vhCuspSeg{}
+		for _, s := range segs {
+			m := vhCuspSeg{c: Point{s.c.X, -s.c.Y}, r: s.r, a0: -s.a0, a1: -s.a1}
+			for _, q := range s.pts {
+				m.pts = append(m.pts, Point{q.X, -q.Y})
+			}
+			ms = append(ms, m)
+		}
+		segs = ms
+	}
+	if reverse {
+		rs := []vhCuspSeg{}
+		for i := len(segs) - 1; i >= 0; i-- {
+			s := segs[i]
+			m := vhCuspSeg{c: s.c, r: s.r, a0: s.a1, a1: s.a0}
+			for j := len(s.pts) - 1; j >= 0; j-- {
+				m.pts = append(m.pts, s.pts[j])
+			}
+			rs = append(rs, m)
+		}
+		segs = rs
+	}
+	segs = append(append([]vhCuspSeg{}, segs[rot:]...), segs[:rot]...)
+
+	const N = 64
+	area := 0.0
+	p := &Path{}
+	st := segs[0].at(0)
+	p.MoveTo(st.X, st.Y)
+	for i, s := range segs {
+		a := s.at(0)
+		for k := 1; k <= N; k++ {
+			b := s.at(float64(k) / N)
+			area += a.X*b.Y - a.Y*b.X
+			a = b
+		}
+		switch {
+		case s.pts == nil:
+			p.ArcTo(s.r, s.r, 0, false, s.a0 < s.a1, a.X, a.Y)
+		case len(s.pts) == 2:
+			if i < len(segs)-1 { // a final straight segment is the implicit closing edge
+				p.LineTo(s.pts[1].X, s.pts[1].Y)
+			}
+		case len(s.pts) == 3:
+			p.QuadTo(s.pts[1].X, s.pts[1].Y, s.pts[2].X, s.pts[2].Y)
+		default:
+			p.CubeTo(s.pts[1].X, s.pts[1].Y, s.pts[2].X, s.pts[2].Y, s.pts[3].X, s.pts[3].Y)
+		}
+	}
+	p.Close()
+	vAssert("C06.companion.ccw_at_a_cusp_is_the_sign_of_the_area", math.Abs(area) > 0.5 && p.CCW() == (area > 0))
 }
